@@ -86,13 +86,20 @@ def mk_parse(name, sign, base, pattern, what="parse"):
         # only what is observable through the deduced type / value: enough bits, the sign, no fractional digits.
         # (the reported base / digit count / first numeral are internal: e.g. "-07" is scanned as a 2-digit
         # decimal, which denotes the same value)
-        return [("fractional-digits", X.eq(o[2], 0)), ("wide-enough", o[3] >= bl),
+        nfrac = sum(1 for i in dpos if "." in text and i > text.index("."))
+        # (num_bits is an estimate that only selects the storage: result digits = max(31, min(num_bits, max)) for the
+        #  narrowest type int, so an under-estimate below 31 bits -- e.g. 13 for "9999" -- is not observable)
+        return [("fractional-digits", X.eq(o[2], nfrac)), ("wide-enough", X.Or(o[3] >= bl, bl <= 31)),
                 ("sign", X.eq(o[4], 1 if sign == "-" else 0))]
     return Kernel(name, args, ret, body, mode="int", alt_modes=("bv",), W=80, pre=pre, claims=claims, unwind=L + 8,
                   max_paths=60000, timeout=60, desc="%s(\"%s\")" % (what, text), tags={"family": what, "base": base, "nd": nd})
 
 
 # ------------------------------------------------------------------------------------------- ground part
+def chq(c):
+    return "'\\''" if c == "'" else "'%s'" % c
+
+
 def mk_ground(name, body, ret, expect, desc, consts=None, cexpect=None):
     def claims(env, path):
         if path.kind != "RET":
@@ -157,12 +164,13 @@ def ground_kernels(opts):
         tz = trailing(num) if den == 1 else 0
         rep = num >> tz
         ks.append(mk_ground(n, body, "i64", rep, "%s_cnl2" % t,
-                            consts={"exp": "cnl::_impl::tag_of_t<decltype(%s)>::exponent" % ("cnl::literals::operator\"\"_cnl2<%s>()" % ", ".join("'%s'" % c for c in t)),
-                                    "digits": "cnl::digits_v<decltype(%s)>" % ("cnl::literals::operator\"\"_cnl2<%s>()" % ", ".join("'%s'" % c for c in t))},
+                            consts={"exp": "cnl::_impl::tag_of_t<decltype(%s)>::exponent" % ("cnl::literals::operator\"\"_cnl2<%s>()" % ", ".join(chq(c) for c in t)),
+                                    "digits": "cnl::digits_v<decltype(%s)>" % ("cnl::literals::operator\"\"_cnl2<%s>()" % ", ".join(chq(c) for c in t))},
                             cexpect={"exp": e + tz, "digits": used_digits(rep)}))
-    for t, (sig, e10) in (("3.141", (3141, -3)), ("0.5", (5, -1)), ("100", (1, 2)), ("12.75", (1275, -2)), ("7", (7, 0))):
+    for t, (sig, e10) in (("3.141", (3141, -3)), ("0.5", (5, -1)), ("100", (1, 2)), ("12.75", (1275, -2)), ("7", (7, 0)),
+                          ("3.141'592", (3141592, -6)), ("0.000'1", (1, -4)), ("1'234.567'891", (1234567891, -6)), ("1'000.5", (10005, -1))):
         n = "G%d" % len(ks)
-        lit = "cnl::literals::operator\"\"_cnl<%s>()" % ", ".join("'%s'" % c for c in t)
+        lit = "cnl::literals::operator\"\"_cnl<%s>()" % ", ".join(chq(c) for c in t)
         body = "    return static_cast<std::int64_t>(cnl::unwrap(%s));" % lit
         ks.append(mk_ground(n, body, "i64", sig, "%s_cnl" % t,
                             consts={"exp": "cnl::_impl::tag_of_t<decltype(%s)>::exponent" % lit, "radix": "cnl::_impl::tag_of_t<decltype(%s)>::radix" % lit,
@@ -221,4 +229,8 @@ def kernels(opts):
         ks.append(mk_parse("K%d" % len(ks), sign, base, pat, "parse"))
         if len(pat) <= 9:
             ks.append(mk_parse("K%d" % len(ks), sign, base, pat, "scan"))
+    # tokens with a fractional part (what _cnl / _cnl2 scan): the number of fractional digits is the exponent
+    # (no sign: a literal token never contains one, and run-time parse() is for integers)
+    for (sign, pat) in (("", "d.ddd"), ("", "dd.d'dd"), ("", "d'ddd.dd'd"), ("", "d.d'd'd"), ("", "ddd.d")):
+        ks.append(mk_parse("K%d" % len(ks), sign, 10, pat, "scan"))
     return ks + ground_kernels(opts)
